@@ -286,3 +286,135 @@ PROPS["C10"]["runs"] += [
          count=["panic:", "deadlock:", "assert:C10-"], expect_covers=["returned"], no_native_replay=False,
          shards=16, shard_depth=4, bounds={"stream": "announced handshake length 0..8, arbitrary body, one frame header announcing 0..4 bytes with arbitrary type, 36 arbitrary bytes, cut at any position", "asn1": "malformed, or an arbitrary Handshake value"}),
 ]
+
+# ---- algebra tier: the real mpc/bls and mpc/ps code over the exponent-representation model of the mathlib driver
+_BLS_OV = "@MATHLIB_BLS@/zz_verif_model.go=@VERIF@/models/mathlib_overlay.go.txt"
+_PS_OV = "@MATHLIB_PS@/zz_verif_model.go=@VERIF@/models/mathlib002_overlay.go.txt"
+_BLS_ARGS = ["-z3", "z3-new", "-noinit", "-overlay", _BLS_OV, "-det", "-preempt", "0"]
+_PS_ARGS = ["-z3", "z3-new", "-noinit", "-det", "-preempt", "0", "-overlay", _PS_OV, "-redirect", "github.com/IBM/TSS/mpc/ps.psuedoRandomG2=verifStubG2"]
+_ALG_ENV = COMMON_ENV + [
+    "the pairing library is replaced below the mathlib driver interface by an exponent-representation model whose scalars are SMT Reals (field Q): identities with denominators that are products of differences of evaluation points (< 2^16 < r) valid over Q are valid in Z_r",
+    "honest random scalars and hash-to-group / hash-to-scalar outputs are non-zero; hash functions are collision free (uninterpreted with congruence)",
+    "encodings of group/field elements are opaque tagged bytes (equal iff the elements are equal); byte lengths and subgroup membership are not modelled",
+    "encoding/asn1 is an opaque structure-preserving codec",
+    "z3 5.1.0 (z3-new) decides the QF_NRA queries (z3 4.8.12 times out on some of them)",
+    "native replays run the real package code over the same model computed in F_r (r = BN254 group order) with the solver's rational values mapped to num * den^-1 mod r",
+]
+
+
+def _bls(entry, files, params=None, name=None, count=None, covers=None, bounds=None, extra=None, tiers=None, only=None, **kw):
+    d = dict(name=name or entry, dir="mpc/bls", files=files + ["bls_common.go.txt", "bls_model.go.txt"], entry=entry, args=_BLS_ARGS + (extra or []), params=params or {},
+             count=count, expect_covers=covers or [], bounds=bounds or {}, tiers=tiers or {})
+    if only:
+        d["only_tiers"] = only
+    d.update(kw)
+    return d
+
+
+def _nt(nmax):
+    return [(n, t) for n in range(2, nmax + 1) for t in range(2, n + 1)]
+
+
+PROPS["C18"] = dict(
+    level="model_checking",
+    explanation="S1 on the real SSS.Gen/ValueAt/reconstruct/lagrangeCoefficient/chooseKoutOfN/localCreatePublicKeys/localAggregatePublicKeys/localAggregateSignatures/assembleThresholdPublicKey "
+                "with all polynomial coefficients symbolic (Reals): each polynomial identity is one QF_NRA query, so it holds for every dealt polynomial, not for sampled ones; subset coverage is a query over an arbitrary bitmask",
+    assumptions=_ALG_ENV,
+    outside=["n > 5 (6 thorough)", "the ps copy of sss.go/choose.go beyond the threshold-PS flow of C08 (same source text)", "Z_r versus Q as stated in the assumptions"],
+    runs=[_bls("verifH_C18_bls", ["bls_c18.go.txt"], params={"hNn": n, "hTt": t}, name="reconstruction/aggregation n=%d t=%d" % (n, t), count=["assert:C18-", "panic:"], covers=["end"],
+               bounds={"n": n, "t": t, "subsets": "all C(n,t) the real enumeration produces", "coefficients": "arbitrary"}, only=(["quick", "thorough"] if n <= 5 else ["thorough"])) for (n, t) in _nt(6)]
+    + [_bls("verifH_C18_detect", ["bls_c18b.go.txt"], params={"hNn": n, "hTt": t}, name="detection n=%d t=%d" % (n, t), count=["assert:C18-", "panic:"], covers=["consistent", "perturbed"],
+            bounds={"n": n, "t": t, "perturbed party": "any one (symbolic), by any non-zero amount"}, only=(["quick", "thorough"] if n <= 4 else ["thorough"])) for (n, t) in _nt(5) if t < n],
+)
+
+PROPS["C01"] = dict(
+    level="model_checking",
+    explanation="S2 on the real TBLS.Init/KeyGen/OnMsg of n parties (goroutines, condition variables, context monitors executed by the engine), then the real SetShareData/Sign/ThresholdPK/Verifier.Init/AggregateSignatures/Verify "
+                "for every signer set of size >= t and a symbolic digest; all polynomial coefficients symbolic, so each assertion is decided for every DKG randomness; delivery orders that keep links FIFO explored by symbolic choice; "
+                "orchestrated signing: pass-through of the signer's result is asserted in the C12 harness on the real Scheme.Sign",
+    assumptions=_ALG_ENV + ["canonical goroutine schedule (when a goroutine blocks the lowest-numbered runnable one continues); message delivery order symbolic where stated",
+                            "delivery below OnMsg is the subject of C02-C04, list agreement of C07, silent-mode buffering of C14"],
+    outside=["the real curve", "n > 3 (4 thorough)", "preemptive thread interleavings of KeyGen and OnMsg (race freedom is C20's subject)", "the binance backends", "loud/silent full-stack runs"],
+    runs=[
+        _bls("verifH_C01_keygen", ["bls_c01.go.txt"], params={"kN": 2, "kT": 2, "kOrder": 1}, name="DKG + signing n=2 t=2, all link-FIFO delivery orders", count=["assert:C01-", "panic:", "deadlock:"], covers=["end"],
+             bounds={"n": 2, "t": 2, "delivery": "every order that keeps links FIFO", "signer sets": "all of size >= t", "digest": "2 symbolic bytes"}),
+        _bls("verifH_C01_keygen", ["bls_c01.go.txt"], params={"kN": 3, "kT": 2, "kOrder": 0}, name="DKG + signing n=3 t=2, send-order delivery", count=["assert:C01-", "panic:", "deadlock:"], covers=["end"],
+             bounds={"n": 3, "t": 2, "delivery": "in send order", "signer sets": "all of size >= t"}),
+        _bls("verifH_C01_keygen", ["bls_c01.go.txt"], params={"kN": 3, "kT": 3, "kOrder": 0}, name="DKG + signing n=3 t=3", count=["assert:C01-", "panic:", "deadlock:"], covers=["end"],
+             bounds={"n": 3, "t": 3, "delivery": "in send order"}),
+        _bls("verifH_C01_keygen", ["bls_c01.go.txt"], params={"kN": 3, "kT": 2, "kOrder": 1}, name="DKG + signing n=3 t=2, all link-FIFO delivery orders", count=["assert:C01-", "panic:", "deadlock:"], covers=["end"],
+             bounds={"n": 3, "t": 2, "delivery": "every order that keeps links FIFO (3456 orders under the canonical goroutine schedule)"}, shards=16, shard_depth=5, only=["thorough"]),
+        _bls("verifH_C01_keygen", ["bls_c01.go.txt"], params={"kN": 4, "kT": 3, "kOrder": 0}, name="DKG + signing n=4 t=3", count=["assert:C01-", "panic:", "deadlock:"], covers=["end"],
+             bounds={"n": 4, "t": 3, "delivery": "in send order"}, only=["thorough"]),
+        _bls("verifH_C01_keygen", ["bls_c01.go.txt"], params={"kN": 4, "kT": 2, "kOrder": 0}, name="DKG + signing n=4 t=2", count=["assert:C01-", "panic:", "deadlock:"], covers=["end"],
+             bounds={"n": 4, "t": 2, "delivery": "in send order"}, only=["thorough"]),
+    ],
+)
+
+PROPS["C10"]["runs"] += [
+    _bls("verifH_C10_bls_msg", ["bls_c10.go.txt"], name="TBLS.ClassifyMsg / OnMsg", count=["panic:", "deadlock:"], covers=["classifier-accepts", "classifier-rejects", "handled"],
+         bounds={"payload": "0..3 arbitrary bytes", "state": "after Init (before Init is covered by the orchestrator ordering check of C12)", "from": "all 16-bit"}),
+    _bls("verifH_C10_bls_verifier", ["bls_c10v.go.txt"], name="bls.Verifier.Init / Verify / AggregateSignatures", extra=["-asn1havoc"], count=["panic:", "deadlock:"], covers=["parameters-accepted", "parameters-rejected", "returned"],
+         bounds={"public parameters": "malformed, or an arbitrary PublicParams value (vectors of length 0..2, elements well-formed or raw)", "signature": "well-formed element or 2 raw bytes"}, no_native_replay=True),
+]
+PROPS["C11"] = dict(
+    level="model_checking",
+    explanation="S2 on the real TBLS.KeyGen of 3 parties with a symbolic (peer, k): every message of that peer from its k-th on is lost; the context expires at quiescence; "
+                "plus the real Scheme.Sign with failing barriers / unusable share data (shared with C12)",
+    assumptions=_ALG_ENV + ["context expiry is forced when nothing else can run (and not earlier)", "canonical goroutine schedule"],
+    outside=["more than one faulty peer", "real timers", "expiry racing with message handling", "the binance backends (their KeyGen panics on pre-parameter timeout by design of the adapter: read only, not encoded)"],
+    runs=[
+        _bls("verifH_C11_silent", ["bls_c11.go.txt"], name="TBLS.KeyGen with a peer that goes silent after its k-th message", count=["assert:C11-", "panic:", "deadlock:"], covers=["end", "returned-error", "returned-ok"],
+             bounds={"n": 3, "t": 2, "silent peer": "any of 3", "k": "0..6 (all)"}),
+        dict(name="Scheme.Sign failure paths return an error", dir="threshold", files=["thr_c12.go.txt"], entry="verifH_C12_sign", args=_THR_CONC + ["-preempt", "0"], count=["assert:C11-", "panic:", "deadlock:"], expect_covers=["end"],
+             shards=8, shard_depth=4, bounds={"outcomes": "first barrier fails, second barrier fails, share data unusable, signer fails"}),
+    ],
+)
+
+PROPS["C20"] = dict(
+    level="model_checking",
+    explanation="vector-clock happens-before monitor over every heap read/write and map operation of the real code on the schedules the engine explores (symbolic scheduler, preemption bounded): "
+                "reported = feasible path with two conflicting accesses unordered by mutex/cond/channel/once/atomic/go edges; every report is confirmed by running the harness natively under the Go race detector",
+    assumptions=COMMON_ENV + ["happens-before edges are over-approximated (one clock per synchronisation object), so the monitor can miss a race but does not invent one",
+                              "only the harnessed scenarios: KeyGen || OnMsg with early/duplicate/out-of-phase messages (bls), HandleMessage || Send (msg.Box), HandleMessage || Sign (threshold)"],
+    outside=["everything not on those schedules", "runtime internals and library code", "more than 2 preemptions", "full-stack runs"],
+    runs=[
+        _bls("verifH_C20_keygen_race", ["bls_c20.go.txt"], name="bls: KeyGen || OnMsg (two shares, an out-of-phase reveal)", extra=["-race", "-acqonly", "-preempt", "2"], count=["race:", "panic:"], covers=["end"],
+             bounds={"goroutines": "KeyGen, dispatcher, context monitor, deadline", "preemptions": "<= 2", "switch points": "before every Lock/Unlock, channel operation"}, shards=16, shard_depth=4, replay_repeat=2, replay_args=["-instr", "mpc.go"]),
+        dict(name="msg.Box: HandleMessage (two peers) || Send incl. garbage collection", dir="msg", files=["msg_c20.go.txt"], entry="verifH_C20_box", args=["-realhex", "-race", "-acqonly", "-preempt", "1"], shards=16, shard_depth=5,
+             count=["race:", "panic:", "deadlock:"], expect_covers=["end"], replay_repeat=2, replay_args=["-instr", "msgbox.go"], bounds={"goroutines": "3 + main + clock daemon", "preemptions": "<= 1"}, tiers={"thorough": {"args": ["-realhex", "-race", "-acqonly", "-preempt", "2"], "bounds": {"preemptions": "<= 2"}}}),
+    ],
+)
+
+PROPS["C05"] = dict(
+    level="model_checking",
+    explanation="S2: honest parties run the real TBLS.KeyGen; the Byzantine party's share per victim, commitment, revealed key (well-formed or raw), omissions, duplicates and phase order are symbolic; "
+                "assertions: completed honest parties report identical public material and their shares sign under it; no reveal before all commitments are held; no panic; context expiry at quiescence",
+    assumptions=_ALG_ENV + ["broadcast-class messages reach every honest party identically (C02)", "collision-free SHA-256 for the hash commitment", "canonical goroutine schedule, messages delivered in send order"],
+    outside=["more than one Byzantine party", "n > 3 (4 thorough)", "the PS DKG beyond the shared structure (tps.go mirrors mpc.go; its KeyGen is exercised honestly in C08)"],
+    runs=[
+        _bls("verifH_C05_byz", ["bls_c05.go.txt"], params={"bN": 3, "bT": 2}, name="n=3 t=2, party 3 Byzantine", count=["assert:C05-", "panic:", "deadlock:"], covers=["all-aborted", "all-completed"], shards=8, shard_depth=4,
+             bounds={"n": 3, "t": 2, "Byzantine messages": "share per victim arbitrary/withheld/duplicated, commitment matching or arbitrary 32 bytes or withheld, reveal well-formed/raw/withheld/duplicated, reveal before commitment or after"}),
+        _bls("verifH_C05_byz", ["bls_c05.go.txt"], params={"bN": 3, "bT": 3}, name="n=3 t=3 (t = n)", count=["assert:C05-", "panic:", "deadlock:"], covers=["all-aborted", "all-completed"], shards=8, shard_depth=4,
+             bounds={"n": 3, "t": 3}),
+        _bls("verifH_C05_byz", ["bls_c05.go.txt"], params={"bN": 4, "bT": 2}, name="n=4 t=2", count=["assert:C05-", "panic:", "deadlock:"], covers=["all-aborted", "all-completed"], shards=16, shard_depth=5,
+             bounds={"n": 4, "t": 2}, only=["thorough"]),
+        _bls("verifH_C05_byz", ["bls_c05.go.txt"], params={"bN": 4, "bT": 3}, name="n=4 t=3", count=["assert:C05-", "panic:", "deadlock:"], covers=["all-aborted", "all-completed"], shards=16, shard_depth=5,
+             bounds={"n": 4, "t": 3}, only=["thorough"]),
+    ],
+)
+PROPS["C09"] = dict(
+    level="model_checking",
+    explanation="S1 on the real localSign/localAggregateSignatures/localVerify (BLS) and the real PS request/proof code: tamper classes applied to genuine objects built from symbolic randomness. "
+                "Universal classes (signature moved, other key, other message; PS: see runs) are asserted for every value; generic classes (fewer shares, wrong index, foreign share) are decided as "
+                "'a rejecting polynomial exists' (required cover) plus rejection at a fixed generic point; idempotence and no mutation of the verified object are asserted",
+    assumptions=_ALG_ENV + ["non-degenerate key f(0) != 0", "that no efficient adversary finds an accepted forgery is a computational statement and is NOT claimed: the claim is that every component is bound"],
+    outside=["computational soundness (discrete log, random oracle)", "n > 4", "tamper classes outside the listed ones"],
+    runs=[
+        _bls("verifH_C09_bls", ["bls_c09.go.txt"], params={"gN": 4, "gT": 3, "gConcrete": 0}, name="BLS n=4 t=3, symbolic polynomial", count=["assert:C09-", "panic:"],
+             covers=["end", "fewer-than-t-shares-rejected", "wrong-signer-index-rejected", "foreign-share-rejected"], bounds={"n": 4, "t": 3, "digest": "symbolic byte", "classes": 6}),
+        _bls("verifH_C09_bls", ["bls_c09.go.txt"], params={"gN": 4, "gT": 3, "gConcrete": 1}, name="BLS n=4 t=3, fixed generic polynomial", count=["assert:C09-", "panic:"], covers=["end"],
+             bounds={"polynomial": "coefficients 1000003, 7919, 104729", "digest and hash values": "symbolic"}),
+        _bls("verifH_C09_bls", ["bls_c09.go.txt"], params={"gN": 3, "gT": 2, "gConcrete": 0}, name="BLS n=3 t=2", count=["assert:C09-", "panic:"], covers=["end", "wrong-signer-index-rejected", "foreign-share-rejected"], bounds={"n": 3, "t": 2}),
+    ],
+)
